@@ -184,7 +184,9 @@ class PendingIf(_PendingCompoundStmt[If]):
         orelse = self.nsp_global.expr_wraper(self.converted_orelse)
         if self.nsp_global.configs.if_style == "short_circuit":
             if len(self.converted_orelse) > 0:
-                body_or_true = BoolOp(op=Or(), values=[body, Constant(value=1)])
+                # a one-element list display is true whatever the body gives,
+                # and it doesn't ask the body's value for its truth value
+                body_or_true = List(elts=[body], ctx=Load())
                 semi_if = BoolOp(op=And(), values=[test, body_or_true])
                 return [BoolOp(op=Or(), values=[semi_if, orelse])]
             else:
